@@ -271,3 +271,7 @@ mod tests {
         })
     }
 }
+
+#[cfg(kani)]
+#[path = "/verif/kani/rten-text/split.rs"]
+mod verif_kani;
